@@ -97,6 +97,9 @@ def high_bytes(ctx):
         ('[\\x80-\\xff]', lambda b: True), ('[a-\\xe9]', lambda b: b <= 0xe9), ('[\\xe9]', lambda b: b == 0xe9),
         ('[!\\xe9]', lambda b: b != 0xe9), ('?', lambda b: True), ('*', lambda b: True), ('\\xe9', lambda b: b == 0xe9),
         ('[\\xc0-\\xdf]', lambda b: 0xc0 <= b <= 0xdf),
+        # brackets whose ranges are all reversed: nothing / every single byte
+        ('[z-a]', lambda b: False), ('[!z-a]', lambda b: True), ('[^9-0]', lambda b: True), ('[z-a9-0]', lambda b: False),
+        ('[!z-a9-0]', lambda b: True), ('[\\xff-\\x80]', lambda b: False), ('[!\\xff-\\x80]', lambda b: True),
     ]
     for fi, (pat, pred) in enumerate(forms):
         if not ctx.mine(fi):
